@@ -332,6 +332,49 @@ func ep3(res *core.Result, r *rand.Rand, idV *m.Address, id identity) (accepted 
 	return stored || sess, true
 }
 
+// hopAnnouncement builds an authentic announcement of `origin` with one hop record carrying the identity under
+// test, signed with the key the identity's presenter holds (random bytes if nobody holds one).
+func hopAnnouncement(b *frame.Builder, r *rand.Rand, origin *m.Address, id identity) ([]byte, bool) {
+	hdr := router.PingHeader{PingID: r.Uint64() | 1, PingType: "announce", AddrHash: origin.Hash, KeyType: origin.Type, PublicKey: origin.PublicKey}
+	hd, _ := cbor.Marshal(&hdr)
+	msg, _ := cbor.Marshal(&router.AnnouncePingMsg{Info: &m.RouterInfo{Version: "v"}, ReturnLabel: 5, Expires: time.Now().Add(10 * time.Minute)})
+	data := append(append([]byte{1, byte(len(hd))}, hd...), msg...)
+	f, err := b.NewFrameV1(origin.IP, m.RouterAddress, frame.RouterHopPing, nil, data, nil)
+	if err != nil {
+		return nil, false
+	}
+	defer f.ReturnToPool()
+	f.SetTTL(0)
+	f.SetSequenceTime(time.Now().Round(time.Millisecond))
+	_ = f.SignRaw(origin.PrivateKey)
+	f.SetTTL(30)
+	ctx := make([]byte, 88)
+	copy(ctx[:16], origin.IP.AsSlice())
+	binary.BigEndian.PutUint64(ctx[16:24], uint64(f.SequenceTime().UnixMilli()))
+	copy(ctx[24:], f.AuthData())
+	att := router.AnnouncePingAttachment{Router: id.public(), Delay: 7, ForwardLabel: 9, ReturnLabel: 11}
+	ab, err := cbor.Marshal(att)
+	if err != nil {
+		return nil, false
+	}
+	var sig []byte
+	if id.priv != nil {
+		sig, _ = id.priv.Sign(nil, ab, &ed25519.Options{Context: string(ctx)})
+	}
+	if len(sig) != 64 {
+		sig = core.RandBytes(r, 64)
+	}
+	apx := append(ab, sig...)
+	if len(apx) > 10000 {
+		return nil, false // does not fit an appendix
+	}
+	if err := f.SetAppendixData(apx); err != nil {
+		return nil, false
+	}
+	fd, _ := f.FrameDataWithMargins(0, 0)
+	return append([]byte(nil), fd...), true
+}
+
 func ep4(res *core.Result, r *rand.Rand, idV *m.Address, origin *m.Address, id identity) (accepted bool, ok bool) {
 	if !id.ip.IsValid() {
 		return false, false
@@ -344,49 +387,10 @@ func ep4(res *core.Result, r *rand.Rand, idV *m.Address, origin *m.Address, id i
 			return false, false
 		}
 	}
-	// an authentic announcement of `origin`, with one hop record carrying the identity under test
-	hdr := router.PingHeader{PingID: r.Uint64() | 1, PingType: "announce", AddrHash: origin.Hash, KeyType: origin.Type, PublicKey: origin.PublicKey}
-	hd, _ := cbor.Marshal(&hdr)
-	msg, _ := cbor.Marshal(&router.AnnouncePingMsg{Info: &m.RouterInfo{Version: "v"}, ReturnLabel: 5, Expires: time.Now().Add(10 * time.Minute)})
-	data := append(append([]byte{1, byte(len(hd))}, hd...), msg...)
-	b := vc.v.Inst.BuilderV
-	f, err := b.NewFrameV1(origin.IP, m.RouterAddress, frame.RouterHopPing, nil, data, nil)
-	if err != nil {
+	raw, ok := hopAnnouncement(vc.v.Inst.BuilderV, r, origin, id)
+	if !ok {
 		return false, false
 	}
-	f.SetTTL(0)
-	f.SetSequenceTime(time.Now().Round(time.Millisecond))
-	_ = f.SignRaw(origin.PrivateKey)
-	f.SetTTL(30)
-	ctx := make([]byte, 88)
-	copy(ctx[:16], origin.IP.AsSlice())
-	binary.BigEndian.PutUint64(ctx[16:24], uint64(f.SequenceTime().UnixMilli()))
-	copy(ctx[24:], f.AuthData())
-	att := router.AnnouncePingAttachment{Router: id.public(), Delay: 7, ForwardLabel: 9, ReturnLabel: 11}
-	ab, err := cbor.Marshal(att)
-	if err != nil {
-		f.ReturnToPool()
-		return false, false
-	}
-	var sig []byte
-	if id.priv != nil {
-		sig, _ = id.priv.Sign(nil, ab, &ed25519.Options{Context: string(ctx)})
-	}
-	if len(sig) != 64 {
-		sig = core.RandBytes(r, 64)
-	}
-	apx := append(ab, sig...)
-	if len(apx) > 10000 {
-		f.ReturnToPool()
-		return false, false // does not fit an appendix
-	}
-	if err := f.SetAppendixData(apx); err != nil {
-		f.ReturnToPool()
-		return false, false
-	}
-	fd, _ := f.FrameDataWithMargins(0, 0)
-	raw := append([]byte(nil), fd...)
-	f.ReturnToPool()
 	_, perr := vc.ms.HandleAtRouter(0, 1, raw)
 	if perr != nil {
 		res.Violate("crash:hop-record", fmt.Sprintf("an announcement hop record panicked the router worker (%v): %s", perr, id), map[string]any{"identity": id.String(), "entry": "hop-record"})
@@ -394,6 +398,99 @@ func ep4(res *core.Result, r *rand.Rand, idV *m.Address, origin *m.Address, id i
 	}
 	stored, sess := vc.knows(id.ip)
 	return stored || sess, true
+}
+
+func (vc *victim) routeTo(ip netip.Addr) bool {
+	for _, e := range vc.v.Inst.RouterV.Table().VerifEntries() {
+		if e.DstIP == ip {
+			return true
+		}
+	}
+	return false
+}
+
+// knownThenForged: the victim first learns the honest owner v of an address at the given entry point, then the
+// same entry point is presented with the same address under another (real, attacker-held) key, correctly signed
+// with that other key. The address does not derive from that key, so the presentation must have no effect:
+// for a hop record no route through it, for a ping no answer.
+func knownThenForged(res *core.Result, r *rand.Rand, idV *m.Address, origins [2]*m.Address, v identity, entry string) (accepted bool, ok bool) {
+	attacker := validIdentity(r, v.hash, 0)
+	forged := identity{ip: v.ip, hash: v.hash, ktype: v.ktype, key: attacker.key, easing: v.easing, priv: attacker.priv, field: "key", class: "known-address-with-another-real-key"}
+	if refAccept(forged) {
+		return false, false
+	}
+	vc, err := newVictim(idV, v.ip)
+	if err != nil {
+		return false, false
+	}
+	b := vc.v.Inst.BuilderV
+	switch entry {
+	case "hop-record":
+		raw1, ok1 := hopAnnouncement(b, r, origins[0], v)
+		if !ok1 {
+			return false, false
+		}
+		if _, perr := vc.ms.HandleAtRouter(0, 1, raw1); perr != nil || !vc.routeTo(origins[0].IP) {
+			return false, false // positive control is judged by the fresh-victim case
+		}
+		res.Count("known_victim_learned_honest_owner", 1)
+		raw2, ok2 := hopAnnouncement(b, r, origins[1], forged)
+		if !ok2 {
+			return false, false
+		}
+		if _, perr := vc.ms.HandleAtRouter(0, 1, raw2); perr != nil {
+			res.Violate("crash:hop-record", fmt.Sprintf("an announcement hop record panicked the router worker (%v): %s", perr, forged), map[string]any{"identity": forged.String(), "entry": "hop-record-known"})
+			return false, false
+		}
+		return vc.routeTo(origins[1].IP), true
+	default: // ping header
+		mk := func(id identity) ([]byte, bool) {
+			hdr := router.PingHeader{PingID: r.Uint64() | 1, PingType: "pong", AddrHash: crop.Hash(id.hash), KeyType: crop.KeyPairType(id.ktype), PublicKey: id.key}
+			hd, err := cbor.Marshal(&hdr)
+			if err != nil || len(hd) > 255 {
+				return nil, false
+			}
+			body, _ := cbor.Marshal(map[string]string{"msg": "ping"})
+			data := append(append([]byte{1, byte(len(hd))}, hd...), body...)
+			f, err := b.NewFrameV1(id.ip, idV.IP, frame.RouterPing, nil, data, nil)
+			if err != nil {
+				return nil, false
+			}
+			signFrame(f, id, r)
+			fd, _ := f.FrameDataWithMargins(0, 0)
+			raw := append([]byte(nil), fd...)
+			f.ReturnToPool()
+			return raw, true
+		}
+		if v.easing != 0 {
+			return false, false
+		}
+		raw1, ok1 := mk(v)
+		if !ok1 {
+			return false, false
+		}
+		if _, perr := vc.ms.HandleAtRouter(0, 1, raw1); perr != nil {
+			return false, false
+		}
+		if _, sess := vc.knows(v.ip); !sess {
+			return false, false
+		}
+		for vc.ms.Pending() > 0 {
+			vc.ms.Take(0)
+		}
+		res.Count("known_victim_learned_honest_owner", 1)
+		time.Sleep(2 * time.Millisecond) // a later signed timestamp
+		raw2, ok2 := mk(forged)
+		if !ok2 {
+			return false, false
+		}
+		herr, perr := vc.ms.HandleAtRouter(0, 1, raw2)
+		if perr != nil {
+			res.Violate("crash:ping-header", fmt.Sprintf("a ping panicked the router worker (%v): %s", perr, forged), map[string]any{"identity": forged.String(), "entry": "ping-header-known"})
+			return false, false
+		}
+		return herr == nil && vc.ms.Pending() > 0, true
+	}
 }
 
 // ---- entry point 2: peering request over the wire
@@ -619,6 +716,7 @@ func run(c *core.Ctx) {
 	idPool := core.RNG("c01/idv")
 	idV := env.NewIdentity(idPool, nil)
 	origin := env.NewIdentity(idPool, nil)
+	origin2 := env.NewIdentity(idPool, nil)
 	parallel(W, func(w int) {
 		r := core.RNG(fmt.Sprintf("c01/%d", w))
 		for i := w; i < nValid; i += W {
@@ -680,6 +778,19 @@ func run(c *core.Ctx) {
 					return
 				}
 			}
+			for _, entry := range []string{"hop-record", "ping-header"} {
+				if acc, ok := knownThenForged(res, r, idV, [2]*m.Address{origin, origin2}, v, entry); ok {
+					res.Case(fmt.Sprintf("%s-known|%s|%s", entry, v.hash, v.ip), true)
+					if acc {
+						res.Violate("corrupt-identity-accepted:"+entry+":known-address-with-another-real-key",
+							fmt.Sprintf("a router that already knows the owner of %s accepted a %s presenting that address with another key (signed with that other key); the address does not derive from it", v.ip, entry),
+							map[string]any{"address": v.ip.String(), "entry": entry + "-known", "case_id": "known|" + entry})
+						return
+					}
+				} else if res.ViolationCount() > 0 {
+					return
+				}
+			}
 			res.Count("valid_identities_with_all_corruptions", 1)
 			if i < 3 {
 				res.Sample(ids[1+r.IntN(len(ids)-1)].String())
@@ -704,4 +815,5 @@ func run(c *core.Ctx) {
 	res.Assume("the generator is asked for prefixes inside the routable half of fd00::/8 (what it can verify)")
 	res.Require(res.Counter("valid_identities_with_all_corruptions") >= int64(nValid*8/10), "too few identities completed")
 	res.Require(res.Counter("generated_identities_checked") >= 20, "too few generator calls completed")
+	res.Require(res.Counter("known_victim_learned_honest_owner") >= 10, "too few victims with prior knowledge of the honest owner")
 }
